@@ -29,6 +29,8 @@ func oneShotCmd(ctx context.Context, kind string, timeoutS int) *exec.Cmd {
 		return exec.CommandContext(ctx, "cvc5", "--lang=smt2", "--produce-models", fmt.Sprintf("--tlimit=%d", timeoutS*1000))
 	case "cvc5-int":
 		return exec.CommandContext(ctx, "cvc5", "--lang=smt2", "--produce-models", "--solve-bv-as-int=sum", fmt.Sprintf("--tlimit=%d", timeoutS*1000))
+	case "cvc5-iand":
+		return exec.CommandContext(ctx, "cvc5", "--lang=smt2", "--produce-models", "--solve-bv-as-int=iand", fmt.Sprintf("--tlimit=%d", timeoutS*1000))
 	}
 	return nil
 }
